@@ -4,7 +4,7 @@ import numpy as np
 from . import core, gen_mesh as gm
 
 
-def fem_mesh_cases(rng, tier, n_tria, n_tet, max_v=36, allow_f32=True):
+def fem_mesh_cases(rng, tier, n_tria, n_tet, max_v=36, allow_f32=True, far=False):
     """Meshes with all vertices used and non-degenerate elements."""
     cases = []
     fams = ["grid", "gridh", "fan", "annulus", "tetra", "octa", "cube", "ico", "torus", "delaunay", "union", "book", "moebius", "gridh", "delaunay"]
@@ -44,6 +44,15 @@ def fem_mesh_cases(rng, tier, n_tria, n_tet, max_v=36, allow_f32=True):
         vd = rng.choice(["float64", "float64", "float64", "float32"]) if allow_f32 else "float64"
         if allow_f32 and fam.endswith("_scaled") and sc < 1e-3 and rng.random() < 0.6:
             vd = "float32"      # small units in single precision
+        if far and rng.random() < 0.15:
+            # far from the origin (scanner / world coordinates): element matrices depend on edge vectors only
+            P = np.array(v, dtype=float)
+            size = np.abs(P - P.mean(0)).max() + 1e-300
+            d = np.array([rng.gauss(0, 1) for _ in range(3)])
+            d /= np.linalg.norm(d)
+            P = P + d * size * (1e6 if vd == "float64" else 100.0)
+            v = P.tolist()
+            fam = fam + "_far"
         if vd == "float32":
             v = np.array(v, dtype=np.float32).astype(float).tolist()
             if min_tria_quality(v, t) < 0.15:
